@@ -26,6 +26,6 @@ Practicalities:
 
 Deliverables, all inside {wt}/SEED/ (create it):
 1. patch.diff  - `git -C {wt} diff` of your source change only (not SEED/).
-2. demo.py     - a small self-contained program (or test) that exercises the specific situation and exits 0 when the property holds and non-zero (with a clear message) when it is violated. Confirm yourself: it FAILS with your change and PASSES without it (save your change with `git diff > /tmp/mychange.diff`, undo it with `git apply -R`, re-apply with `git apply`; do NOT use `git stash`: the stash is shared by all worktrees of the repository and other agents use it concurrently; rebuild an extension if your change is in one).
+2. demo.py     - a small self-contained program (or test) that exercises the specific situation and exits 0 when the property holds and non-zero (with a clear message) when it is violated. Confirm yourself: it FAILS with your change and PASSES without it (save your change with `git diff > SEED/patch.diff` inside your own worktree - never to a path outside it: other agents work concurrently, undo it with `git apply -R`, re-apply with `git apply`; do NOT use `git stash`: the stash is shared by all worktrees of the repository and other agents use it concurrently; rebuild an extension if your change is in one).
 3. notes.md    - 5-15 lines: what you changed, why it breaks the property, exactly what is needed for it to manifest, why the pinned tests do not notice, and the commands you ran with their outcomes (pinned suite result line, demo with/without).
 Finish with a short report (under 25 lines) repeating the essentials. Do not remove the worktree.""")
